@@ -517,7 +517,7 @@ func main() {
 	} else {
 		err = evalCases(probes(), o, rep, true)
 		r := common.NewRng(o.Seed)
-		n := o.Budget(600, 20000)
+		n := o.Budget(600, 12000)
 		var cases []Case
 		for i := 0; i < n && err == nil; i++ {
 			cases = append(cases, genCase(r.Fork(uint64(i))))
